@@ -580,6 +580,17 @@ class ShimNP:
                 j -= 1
         return _np.array(idx, dtype=int)
 
+    def trapz(self, y, x=None, dx=1.0, **k):
+        if not has_sym(y) and not has_sym(x):
+            return _np.trapz(conc(_np.asarray(y)), None if x is None else conc(_np.asarray(x)), dx=dx, **k)
+        yy = list(_np.asarray(y, dtype=object).ravel())
+        xx = None if x is None else list(_np.asarray(x, dtype=object).ravel())
+        tot = 0.0
+        for i in range(len(yy) - 1):
+            w = (xx[i + 1] - xx[i]) if xx is not None else dx
+            tot = tot + w * (yy[i] + yy[i + 1]) / 2.0
+        return tot
+
     def argmax(self, a, *args, **k):
         if not has_sym(a):
             return _np.argmax(conc(a), *args, **k)
